@@ -743,6 +743,39 @@ Section Ties.
   Qed.
 End Ties.
 
+Section Extend.
+  Context {V : Type}.
+  Implicit Types s : state V.
+  (* a tie request that touches exactly one existing group g1 (head h1) whose members share a cell:
+     afterwards the requested names and all members of g1 share that cell *)
+  Lemma set_same_extends_group ns s gs' g1 h1 :
+    collect ns (vars s) (same s) [] [] = (gs', g1, [h1]) ->
+    (forall x, In x ns -> dmem x (vars s) = true) -> dmem h1 (vars s) = true ->
+    (forall x, In x g1 -> dget x (vars s) = dget h1 (vars s)) ->
+    forall a b, In a (ns ++ g1) -> In b (ns ++ g1) ->
+      dget a (vars (set_same ns false s)) = dget b (vars (set_same ns false s)) /\
+      dget a (vars (set_same ns false s)) <> None.
+  Proof.
+    intros Hc Hns Hh Hg a b Ha Hb. unfold set_same. rewrite Hc.
+    cbn [app]. set (rest := filter (fun i => negb (smem i g1)) ns).
+    destruct (dget h1 (vars s)) as [c|] eqn:Ec; [|unfold dmem in Hh; rewrite Ec in Hh; discriminate].
+    cbn [vars set_groups].
+    assert (Hall : forall x, In x (h1 :: rest) -> dmem x (vars (set_groups gs' s)) = true).
+    { intros x [<-|Hx]; [exact Hh|]. apply filter_In in Hx. apply Hns. apply Hx. }
+    rewrite !(same_real_points h1 rest (set_groups gs' s) c Hall Ec).
+    assert (K : forall k, In k (ns ++ g1) ->
+                (if smem k (h1 :: rest) then Some c else dget k (vars (set_groups gs' s))) = Some c).
+    { intros k Hk. destruct (smem k (h1 :: rest)) eqn:E; [reflexivity|].
+      apply smem_false in E. cbn [vars set_groups].
+      apply in_app_or in Hk. destruct Hk as [Hk|Hk].
+      - destruct (smem k g1) eqn:Eg.
+        + apply smem_In in Eg. rewrite (Hg k Eg). reflexivity.
+        + exfalso. apply E. right. apply filter_In. split; [exact Hk|]. rewrite Eg. reflexivity.
+      - rewrite (Hg k Hk). reflexivity. }
+    rewrite (K a Ha), (K b Hb). split; [reflexivity|discriminate].
+  Qed.
+End Extend.
+
 (* ---------------------------------------------------------------- polar <-> Cartesian *)
 Section Polar.
   Context {V C : Type} (cv : bool -> V -> V -> C).
@@ -1175,10 +1208,12 @@ Qed.
 
 (* ---------------------------------------------------------------- refutations (known findings) *)
 From Coq Require Import Reals Lra.
-From Interval Require Import Tactic.
 
 Section Refutations.
   Open Scope R_scope.
+
+  Lemma cos4_neg : cos 4 < 0.
+  Proof. apply cos_lt_0; pose proof PI2_3_2; pose proof PI_4; lra. Qed.
 
   Definition cvR (f : bool) (a b : R) : R * R := if f then (a * cos b, a * sin b) else (a, b).
 
@@ -1213,7 +1248,7 @@ Section Refutations.
     destruct (f7_computation 3 4 r1 p1 r2 p2) as (Ha & _ & _ & _ & _ & Hz).
     split; [exact Ha|]. split; [rewrite Hz, H3, H4; reflexivity|].
     intros E. injection E as -> ->.
-    assert (cos 4 < 0) by interval. lra.
+    pose proof cos4_neg. lra.
   Qed.
 
   (* the contracts are satisfiable: polar coordinates exist *)
